@@ -167,9 +167,10 @@ Lemma lame_rubber_ok :
 Proof. vm_compute. split; reflexivity. Qed.
 
 (* module wrappers of losses/flow.py and losses/bspline.py (traced: constructor options vs the keyword arguments
-   forward() hands to the functional form): every option is passed on, for every class except Elasticity *)
-Definition row_ok (p : string * string) : bool := String.eqb (snd p) "ok" || String.prefix "Elasticity" (fst p).
-Lemma flow_module_options_partial :
+   forward() hands to the functional form): every option is passed on, for every class *)
+Definition row_ok (p : string * string) : bool := String.eqb (snd p) "ok".
+Lemma flow_module_options_ok :
   forallb row_ok gen_flow_module_options = true /\ (13 <= List.length gen_flow_module_options)%nat /\
-  existsb (fun p => String.eqb (fst p) "GradLoss(p=4, q=0)" && String.eqb (snd p) "ok") gen_flow_module_options = true.
+  existsb (fun p => String.eqb (fst p) "GradLoss(p=4, q=0)") gen_flow_module_options = true /\
+  existsb (fun p => String.prefix "Elasticity" (fst p)) gen_flow_module_options = true.
 Proof. vm_compute. repeat split; lia. Qed.
